@@ -1687,7 +1687,11 @@ where
         mut packet: v5_0::GenericPublish<PacketIdType>,
     ) -> Vec<GenericEvent<PacketIdType>> {
         if !self.validate_maximum_packet_size_send(packet.size()) {
-            return vec![GenericEvent::NotifyError(MqttError::PacketTooLarge)];
+            let mut events = vec![GenericEvent::NotifyError(MqttError::PacketTooLarge)];
+            if let Some(packet_id) = packet.packet_id() {
+                self.release_refused_packet_id(packet_id, &mut events);
+            }
+            return events;
         }
 
         let mut events = Vec::new();
@@ -2097,7 +2101,9 @@ where
         packet: v5_0::GenericSubscribe<PacketIdType>,
     ) -> Vec<GenericEvent<PacketIdType>> {
         if !self.validate_maximum_packet_size_send(packet.size()) {
-            return vec![GenericEvent::NotifyError(MqttError::PacketTooLarge)];
+            let mut events = vec![GenericEvent::NotifyError(MqttError::PacketTooLarge)];
+            self.release_refused_packet_id(packet.packet_id(), &mut events);
+            return events;
         }
 
         let mut events = Vec::new();
@@ -2203,7 +2209,9 @@ where
         packet: v5_0::GenericUnsubscribe<PacketIdType>,
     ) -> Vec<GenericEvent<PacketIdType>> {
         if !self.validate_maximum_packet_size_send(packet.size()) {
-            return vec![GenericEvent::NotifyError(MqttError::PacketTooLarge)];
+            let mut events = vec![GenericEvent::NotifyError(MqttError::PacketTooLarge)];
+            self.release_refused_packet_id(packet.packet_id(), &mut events);
+            return events;
         }
 
         let mut events = Vec::new();
@@ -2443,6 +2451,18 @@ where
                     duration_ms: ms,
                 });
             }
+        }
+    }
+
+    /// A refused send gives the packet id back to the caller, as the other refusal paths do
+    fn release_refused_packet_id(
+        &mut self,
+        packet_id: PacketIdType,
+        events: &mut Vec<GenericEvent<PacketIdType>>,
+    ) {
+        if self.pid_man.is_used_id(packet_id) {
+            self.pid_man.release_id(packet_id);
+            events.push(GenericEvent::NotifyPacketIdReleased(packet_id));
         }
     }
 
